@@ -246,7 +246,10 @@ def solo(runner, programs, bindings, evals=1, state=None):
 class Gates:
     def __init__(self, schedule, nthreads):
         self.sched = [(e["t"], (e["file"], e["func"], e["line"], e.get("nth", 0)), e.get("occ", 0)) for e in schedule]
-        self.cv = threading.Condition()
+        # `with self.lock` enters/exits in C: a thread held above a recursion limit that another thread has just lowered
+        # cannot call Condition.__exit__ (a Python frame) and would leave the lock held for ever
+        self.lock = threading.RLock()
+        self.cv = threading.Condition(self.lock)
         self.ptr = 0
         self.status = ["pending"] * len(self.sched)     # pending | inflight | done | skipped
         self.queue = {t: [i for i, e in enumerate(self.sched) if e[0] == t] for t in range(nthreads)}
@@ -269,7 +272,7 @@ class Gates:
 
     def line(self, t, code, lineno):
         key = gate_key(code, lineno)
-        with self.cv:
+        with self.lock:
             i = self.inflight[t]
             if i is not None:
                 self.status[i], self.inflight[t] = "done", None
@@ -308,7 +311,7 @@ class Gates:
                 for ident, t in sorted(self.threads.items()) if t not in self.waiting and not self.finished[t]]
 
     def end(self, t):
-        with self.cv:
+        with self.lock:
             i = self.inflight[t]
             if i is not None:
                 self.status[i], self.inflight[t] = "done", None
@@ -333,7 +336,7 @@ def run_forced(runner, programs, bindings, schedule, evals=1, state=None):
     def body(t):
         fn = workload(runner, programs[t], bindings[t], evals)
         start.wait()
-        with g.cv:
+        with g.lock:
             g.threads[threading.get_ident()] = t
         try:
             res[t] = fn()
